@@ -1084,6 +1084,17 @@ type ecChildOut struct {
 	HsOK      bool     `json:"hs_ok"`
 	Bystander string   `json:"bystander"`
 	Kinds     []string `json:"kinds"`
+	Viol      []ecViol `json:"viol"`
+	Known     string   `json:"known"`
+	Repro     bool     `json:"repro"`
+	KnownInfo string   `json:"known_info"`
+}
+
+func ecChildKind(jc *ecCase) string {
+	if jc.Exec == "hs" {
+		return "real handshake functions in a process limited to 3 GiB of address space"
+	}
+	return "complete real path: Server()/epoll loop"
 }
 
 func ecListed(l []string, slug string) bool {
@@ -1146,6 +1157,26 @@ func ecChildMain(path, outPath string) {
 	write := func() {
 		b, _ := json.Marshal(out)
 		os.WriteFile(outPath, b, 0644)
+	}
+	if jc.Exec == "hs" {
+		// a metadata event whose Length underflows: the unrepaired code allocates ~4 GiB for the body. Executed here, in a
+		// process of its own whose address space is limited, so that such an allocation kills this process (and is reported)
+		// instead of eating the machine's memory
+		lim := unix.Rlimit{Cur: 3 << 30, Max: 3 << 30}
+		unix.Setrlimit(unix.RLIMIT_AS, &lim)
+		listed := map[string]bool{}
+		for _, x := range cj.Listed {
+			listed[x] = true
+		}
+		o := ecExecHs(jc, 0, steps, listed, cj.Token)
+		out.Err = o.err
+		out.Viol = o.viol
+		out.Known = o.known
+		out.Repro = o.repro
+		out.KnownInfo = o.knownInfo
+		out.Done = true
+		write()
+		return
 	}
 	bc, bs, err := ecNewPair()
 	if err != nil {
@@ -1408,7 +1439,17 @@ func ecExecChild(jc *ecCase, bi int, steps []ecStep, listed map[string]bool, tok
 			out.knownInfo = fmt.Sprintf("%s cuts %s (real epoll loop, child process): process died: %s", jc.Name, ecCuts(steps), strings.SplitN(msg, "\n", 2)[0])
 			return
 		}
-		viol("panic", "the process died (complete real path: Server()/epoll loop): "+strings.ReplaceAll(msg, "\n", " | "))
+		viol("panic", "the process died ("+ecChildKind(jc)+"): "+strings.ReplaceAll(msg, "\n", " | "))
+		return
+	}
+	if jc.Exec == "hs" {
+		for _, v := range co.Viol {
+			v.Beh = bi
+			v.Executor = "child"
+			out.viol = append(out.viol, v)
+		}
+		out.known, out.repro, out.knownInfo, out.err = co.Known, co.Repro, co.KnownInfo, co.Err
+		out.complete = len(out.viol) == 0
 		return
 	}
 	if hit != "none" && listed[hit] {
@@ -1544,7 +1585,7 @@ func TestVS_EventCodec(t *testing.T) {
 			if len(steps) == 0 {
 				continue
 			}
-			if jc.Exec == "hsfull" || (jc.Child && bi < 2) {
+			if jc.Exec == "hsfull" || (jc.Child && bi < 2) || (jc.Danger && jc.Exec == "hs" && bi < 3) {
 				children = append(children, childTask{jc, bi, steps})
 			}
 		}
@@ -1584,6 +1625,9 @@ func TestVS_EventCodec(t *testing.T) {
 						case "run":
 							o = ecExecRun(jc, bi, steps, listed)
 						case "hs", "hc":
+							if jc.Danger {
+								continue // executed in a child process with an address-space limit (see the children below)
+							}
 							o = ecExecHs(jc, bi, steps, listed, job.Token)
 						default:
 							continue
@@ -1715,6 +1759,7 @@ func TestVS_EventCodec(t *testing.T) {
 	}
 	// children, a few at a time
 	if job.Children > 0 && len(children) > 0 {
+		sort.SliceStable(children, func(a, b int) bool { return children[a].jc.Danger && !children[b].jc.Danger })
 		if len(children) > job.Children {
 			children = children[:job.Children]
 		}
